@@ -9,6 +9,7 @@ CONSTANTS
  Calls = 1
  TxLen = 2
  Guarded = FALSE
+ FailProcs = {}
 INVARIANT NoCrash
 INVARIANT MutualExclusion
 INVARIANT NoLostUnlock
